@@ -7,6 +7,7 @@ package diff
 
 //@ property C08: Diff, lines
 //@ bounded C08: TestVerifBoundedDiff
+//@ bounded C08: TestVerifBoundedDiffGaps
 
 //@ pure func eqBytes(a []byte, b []byte) bool = len(a) == len(b) && forall K {at(a,K)} :: lo(a) <= K && K < hi(a) ==> at(a,K) == at(b, lo(b) + K - lo(a))
 //@ extern bytes.Equal(a, b) (r)
